@@ -3,5 +3,5 @@ set -eu
 cd "$(dirname "$0")/../.."
 . bin/env.sh
 go test -c -race -tags synctests,verif -o "$BUILD/c41.test" ./checks/c41
-export VERIF_BURST=1
+export VERIF_BURST=1 VERIF_COW=1
 exec "$BUILD/c41.test" -test.run '^TestC41$' -test.timeout 0
